@@ -372,7 +372,7 @@ Proof.
     + intro Hin. apply in_map_iff in Hin. destruct Hin as [e [Ee He]].
       apply in_flat_map in He. destruct He as [x [_ He]]. apply entries_under in He. rewrite Ee in He.
       apply (under_cons_neq (tname x) (n :: pp)). exact He.
-    + revert Hnd Hwfc IH. generalize (c_plc_scope c) (c_lim_scope c). intros a' b'.
+    + revert Hnd Hwfc IH. generalize (c_scope c) (c_scope c). intros a' b'.
       induction ch as [|y ch IHc]; intros Hnd Hwfc IH; simpl. constructor.
       apply names_distinct_cons in Hnd. destruct Hnd as [Hnotin Hnd].
       rewrite map_app. apply nodup_app.
@@ -392,4 +392,24 @@ Proof.
   intros cfg rp rl t es e Hwf Hp Hin Hk. apply file_at_most_once; auto.
   eapply Permutation_NoDup. apply Permutation_map. exact Hp.
   apply entries_paths_nodup_aux. exact Hwf.
+Qed.
+
+(* ---------- both sites see the same scope column (fixes/D07: every site matches the normalised path) ---------- *)
+Lemma entries_sites_agree : forall t pp a d e,
+  In e (entries_aux pp a a d t) -> e_pplc e = e_plim e.
+Proof.
+  induction t as [n c|n c|n c ch IH] using tree_ind'; intros pp a d e Hin; simpl in Hin.
+  - destruct (c_skip c); simpl in Hin; [contradiction|]. destruct Hin as [<-|[]]. reflexivity.
+  - destruct (c_skip c); simpl in Hin; [contradiction|]. destruct Hin as [<-|[]]. reflexivity.
+  - destruct (pruned_dir c); simpl in Hin; [contradiction|]. destruct Hin as [<-|Hin]. reflexivity.
+    apply in_flat_map in Hin. destruct Hin as [x [Hx He]].
+    rewrite Forall_forall in IH. exact (IH x Hx _ _ _ _ He).
+Qed.
+
+Lemma scan_exact_tree : forall cfg rs t es,
+  Permutation (entries rs rs t) es -> scan_violations cfg es = spec_scan_violations cfg es.
+Proof.
+  intros cfg rs t es Hp. apply scan_violations_spec. intros e He.
+  apply (entries_sites_agree t [] rs 0 e). unfold entries in Hp.
+  eapply Permutation_in. apply Permutation_sym. exact Hp. exact He.
 Qed.
